@@ -568,6 +568,55 @@ func builtinModels() map[string]modelFn {
 		ex.safeOblige(st, "grow-count", Ge(args[1], IntLit(0)))
 		return nil
 	}
+	// container/list as an unordered bag of elements: an element keeps the Value it was created with, the order
+	// (and therefore Back/Front) and the length are unknown. Sound for statements that do not depend on the order.
+	listElemValue := func(ex *Exec, st *State, c *ssa.CallCommon, elemPtr types.Type) (string, Sort, bool) {
+		pt, ok := elemPtr.Underlying().(*types.Pointer)
+		if !ok {
+			return "", "", false
+		}
+		stt, ok := pt.Elem().Underlying().(*types.Struct)
+		if !ok {
+			return "", "", false
+		}
+		for i := 0; i < stt.NumFields(); i++ {
+			if stt.Field(i).Name() == "Value" {
+				return fieldHeapName(pt.Elem(), i), ArraySort(SInt, SVal), true
+			}
+		}
+		return "", "", false
+	}
+	m["(*container/list.List).PushFront"] = func(ex *Exec, st *State, args []T, c *ssa.CallCommon) []T {
+		e := ex.freshRef(st, "listelem")
+		if h, srt, ok := listElemValue(ex, st, c, c.StaticCallee().Signature.Results().At(0).Type()); ok {
+			ex.heapSet(st, h, Store(ex.heapGet(st, h, srt), e, args[1]))
+		}
+		ex.vc.assumed["container/list modelled as an unordered bag (element values kept; order, Back/Front and Len unknown)"] = true
+		return []T{e}
+	}
+	m["(*container/list.List).PushBack"] = m["(*container/list.List).PushFront"]
+	m["(*container/list.List).MoveToFront"] = func(ex *Exec, st *State, args []T, c *ssa.CallCommon) []T { return nil }
+	m["(*container/list.List).MoveToBack"] = m["(*container/list.List).MoveToFront"]
+	m["(*container/list.List).Remove"] = func(ex *Exec, st *State, args []T, c *ssa.CallCommon) []T {
+		if h, srt, ok := listElemValue(ex, st, c, c.StaticCallee().Signature.Params().At(0).Type()); ok {
+			return []T{Select(ex.heapGet(st, h, srt), args[1])}
+		}
+		return []T{ex.vc.fresh("list.remove", SVal)}
+	}
+	m["(*container/list.List).Back"] = func(ex *Exec, st *State, args []T, c *ssa.CallCommon) []T {
+		r := ex.vc.fresh("list.back", SInt)
+		ex.vc.assume(st.guard, And(Ge(r, IntLit(0)), Le(r, ex.ghostGet(st, "alloc"))))
+		return []T{r}
+	}
+	m["(*container/list.List).Front"] = m["(*container/list.List).Back"]
+	m["(*container/list.List).Len"] = func(ex *Exec, st *State, args []T, c *ssa.CallCommon) []T {
+		r := ex.vc.fresh("list.len", SInt)
+		ex.vc.assume(st.guard, Ge(r, IntLit(0)))
+		return []T{r}
+	}
+	m["container/list.New"] = func(ex *Exec, st *State, args []T, c *ssa.CallCommon) []T {
+		return []T{ex.freshRef(st, "list")}
+	}
 	m["strings.Repeat"] = func(ex *Exec, st *State, args []T, c *ssa.CallCommon) []T {
 		// panics on a negative count; the result has count*len(s) bytes
 		ex.safeOblige(st, "repeat-count", Ge(args[1], IntLit(0)))
